@@ -2,7 +2,7 @@
 from traincommon import *  # noqa
 import C14
 
-KINDS = {"C": "conv", "B": "bel"}
+KINDS = {"C": "conv", "B": "bel", "H": "hyb"}
 
 
 def consist_tmpl(comp, n=2):
@@ -26,7 +26,7 @@ def consist_rollup_case(comp, policy="RESGreedy", n=2):
         d = [("dt > 0", S["dt"] > 0)]
         for j, ch in enumerate(comp):
             d += loco_domain(S, KINDS[ch], f"l{j}_", n)
-            if ch == "C":
+            if ch in "CH":
                 d.append((f"l{j}: previous shaft power >= 0", S[f"l{j}_fc_s_pwr_brake"] >= 0))
         return d
 
@@ -36,13 +36,13 @@ def consist_rollup_case(comp, policy="RESGreedy", n=2):
             tot = tot + f(c, j, ch)
         return tot
 
-    P = lambda j, ch: f"loco_vec.{j}.loco_type." + ("ConventionalLoco." if ch == "C" else "BatteryElectricLoco.")
+    P = lambda j, ch: f"loco_vec.{j}.loco_type." + {"C": "ConventionalLoco.", "B": "BatteryElectricLoco.", "H": "HybridLoco."}[ch]
     dt = lambda c: c.S["dt"]
     claims = [
         Claim("consist pwr_out_req = the demand passed in", lambda c: EQ(c.post["state.pwr_out_req"], c.S["req"])),
         Claim("consist pwr_out = sum of locomotive pwr_out", lambda c: EQ(c.post["state.pwr_out"], sum_over(c, lambda c, j, ch: c.post[f"loco_vec.{j}.state.pwr_out"])), role="consist_pwr_out_sum"),
-        Claim("consist pwr_fuel = sum of engine fuel power", lambda c: EQ(c.post["state.pwr_fuel"], sum_over(c, lambda c, j, ch: c.post[P(j, ch) + "fc.state.pwr_fuel"] if ch == "C" else 0)), role="consist_pwr_fuel_sum"),
-        Claim("consist pwr_reves = sum of battery chemical power", lambda c: EQ(c.post["state.pwr_reves"], sum_over(c, lambda c, j, ch: c.post[P(j, ch) + "res.state.pwr_out_chemical"] if ch == "B" else 0)), role="consist_pwr_reves_sum"),
+        Claim("consist pwr_fuel = sum of engine fuel power", lambda c: EQ(c.post["state.pwr_fuel"], sum_over(c, lambda c, j, ch: c.post[P(j, ch) + "fc.state.pwr_fuel"] if ch in "CH" else 0)), role="consist_pwr_fuel_sum"),
+        Claim("consist pwr_reves = sum of battery chemical power", lambda c: EQ(c.post["state.pwr_reves"], sum_over(c, lambda c, j, ch: c.post[P(j, ch) + "res.state.pwr_out_chemical"] if ch in "BH" else 0)), role="consist_pwr_reves_sum"),
         Claim("accepted step: delivered power equals the demand (code's almost_eq)", lambda c: LE(ABS(c.post["state.pwr_out"] - c.S["req"]), eps8(c.S["req"]) * MAX(1, ABS(c.post["state.pwr_out"] + c.S["req"])))),
         Claim("consist energy_out accumulates pwr_out * dt", lambda c: EQ(c.post["state.energy_out"], c.pre["state.energy_out"] + c.post["state.pwr_out"] * dt(c))),
         Claim("consist energy_fuel accumulates pwr_fuel * dt", lambda c: EQ(c.post["state.energy_fuel"], c.pre["state.energy_fuel"] + c.post["state.pwr_fuel"] * dt(c))),
@@ -50,6 +50,8 @@ def consist_rollup_case(comp, policy="RESGreedy", n=2):
         Claim("positive / negative wheel energy split on the sign of pwr_out", lambda c: AND(
             EQ(c.post["state.energy_out_pos"], c.pre["state.energy_out_pos"] + IF(XLE(0, c.post["state.pwr_out"]), c.post["state.pwr_out"] * dt(c), 0)),
             EQ(c.post["state.energy_out_neg"], c.pre["state.energy_out_neg"] - IF(XLE(0, c.post["state.pwr_out"]), 0, c.post["state.pwr_out"] * dt(c))))),
+        Claim("each locomotive's pwr_out is what its drivetrain delivers at the wheels (traction minus dynamic braking)", lambda c: AND(*[
+            EQ(c.post[f"loco_vec.{j}.state.pwr_out"], c.post[P(j, ch) + "edrv.state.pwr_mech_prop_out"] - c.post[P(j, ch) + "edrv.state.pwr_mech_dyn_brake"]) for j, ch in enumerate(comp)]), role="loco_pwr_out_is_drivetrain_out"),
         Claim("each locomotive's energy_out accumulates its own pwr_out * dt", lambda c: AND(*[EQ(c.post[f"loco_vec.{j}.state.energy_out"], c.pre[f"loco_vec.{j}.state.energy_out"] + c.post[f"loco_vec.{j}.state.pwr_out"] * dt(c)) for j in range(N)])),
         Claim("no_panic", None, when="nopanic"),
     ]
@@ -79,7 +81,7 @@ def train_to_consist_case(i, npts):
 
 def consist_getters_case(comp):
     t = consist_tmpl(comp)
-    P = lambda j, ch: f"loco_vec.{j}.loco_type." + ("ConventionalLoco." if ch == "C" else "BatteryElectricLoco.")
+    P = lambda j, ch: f"loco_vec.{j}.loco_type." + {"C": "ConventionalLoco.", "B": "BatteryElectricLoco.", "H": "HybridLoco."}[ch]
 
     def fuel(c):
         tot = 0
@@ -129,7 +131,7 @@ def m_cases(tier):
 
 
 def _m_cases(tier):
-    cs = [consist_rollup_case("C"), consist_rollup_case("B"), consist_rollup_case("C", "Proportional"), train_to_consist_case(1, 2), train_to_consist_case(2, 3)]
+    cs = [consist_rollup_case("C"), consist_rollup_case("B"), consist_rollup_case("H"), consist_rollup_case("C", "Proportional"), train_to_consist_case(1, 2), train_to_consist_case(2, 3)]
     cs += consist_getters_case("CB") + consist_getters_case("BCB")
     if tier == "thorough":
         cs += [consist_rollup_case("B", "Proportional"), consist_rollup_case("CB"), consist_rollup_case("CB", "Proportional"), consist_rollup_case("BC"), consist_rollup_case("CC")]
